@@ -361,7 +361,7 @@ fn extract_fn(cx: &mut Ctx, specs: &mut Specs, em: &mut Emitter, ex: &Extract) {
         if let Some(st) = items.iter().find_map(|it| if let syn::Item::Struct(s) = it { if s.ident == ty { Some(s.clone()) } else { None } } else { None }) {
             let id = &st.ident; let (ig, tg, wc) = st.generics.split_for_impl();
             let im: syn::ItemImpl = syn::parse_quote!(impl #ig Drop for #id #tg #wc { fn drop(&mut self) {} });
-            if let syn::ImplItem::Fn(f) = &im.items[0] { found.push(Found { im: Some(im.clone()), tr: None, f: FnLike { attrs: vec![], sig: f.sig.clone(), block: f.block.clone() } }); cx.fire("S2"); cx.soft.push(format!("note: `{}` is absent in {}; verified as the empty drop glue", ex.path, ex.file)); }
+            if let syn::ImplItem::Fn(f) = &im.items[0] { found.push(Found { im: Some(im.clone()), tr: None, f: FnLike { attrs: vec![], sig: f.sig.clone(), block: f.block.clone() } }); cx.fire("S2"); eprintln!("hx: note: `{}` is absent in {}; verified as the empty drop glue", ex.path, ex.file); }
         }
     }
     let found: Vec<Found> = match ex.opt("nth").and_then(|n| n.parse::<usize>().ok()) { Some(n) => found.into_iter().skip(n).take(1).collect(), None => found };
@@ -666,12 +666,44 @@ fn fnv(s: &str) -> u64 { let mut h: u64 = 0xcbf29ce484222325; for b in s.bytes()
 /// captured variable does not detach the contract)
 fn positional(txt: String, lc: &rewrite::LiftedClosure) -> String {
     let mut t = txt;
-    for (i, c) in lc.captures.iter().enumerate().rev() { t = t.replace(&format!("${}", i), &(if c == "self" { "this".to_string() } else { c.replace("self.", "self_") })); }
+    let order = POS_ORDER.with(|p| p.borrow().clone());
+    let caps: Vec<&String> = if order.is_empty() { lc.captures.iter().collect() } else { order.iter().filter_map(|i| lc.captures.get(*i)).collect() };
+    for (i, c) in caps.iter().enumerate().rev() { t = t.replace(&format!("${}", i), &(if c.as_str() == "self" { "this".to_string() } else { c.replace("self.", "self_") })); }
     t
+}
+thread_local! { static POS_ORDER: std::cell::RefCell<Vec<usize>> = std::cell::RefCell::new(vec![]); }
+/// which capture each `$k` of a contract signature stands for: captures in capture order, skipping a capture whose type is known
+/// from the enclosing scope and differs from the type the signature gives `$k` (a capture added in front of the contracted ones)
+fn positional_order(sig: &str, lc: &rewrite::LiftedClosure) -> Vec<usize> {
+    let norm = |t: &str| -> String { let t: String = t.chars().filter(|c| !c.is_whitespace()).collect(); t.trim_start_matches("&mut").trim_start_matches('&').to_string() };
+    let mut want: Vec<String> = vec![];
+    for k in 0..10 {
+        let key = format!("${}:", k);
+        let Some(pos) = sig.find(&key) else { break; };
+        let rest = &sig[pos + key.len()..];
+        let mut depth = 0i32; let mut ty = String::new();
+        for ch in rest.chars() { match ch { '<' | '(' | '[' => { depth += 1; ty.push(ch); } '>' | ']' => { depth -= 1; ty.push(ch); } ')' => { if depth == 0 { break; } depth -= 1; ty.push(ch); } ',' if depth == 0 => break, _ => ty.push(ch) } }
+        want.push(norm(&ty));
+    }
+    let mut order = vec![]; let mut ci = 0usize;
+    for w in &want {
+        while ci < lc.captures.len() {
+            let known = lc.cap_types.get(ci).cloned().flatten();
+            let skip = match &known { Some(t) => norm(t) != *w, None => false };
+            if skip && lc.captures.len() - ci > want.len() - order.len() { ci += 1; } else { break; }
+        }
+        if ci < lc.captures.len() { order.push(ci); ci += 1; }
+    }
+    // the captures no placeholder stands for follow, in capture order
+    for i in 0..lc.captures.len() { if !order.contains(&i) { order.push(i); } }
+    order
 }
 fn emit_lifted(cx: &mut Ctx, specs: &mut Specs, em: &mut Emitter, gens: &[&syn::Generics], lc: &rewrite::LiftedClosure, file: &str) -> Vec<rewrite::LiftedClosure> {
     let (gtxt_all, wtxt_all) = generics_text(gens, &[], cx);
     let kind = if lc.is_async_block { "async block" } else { "closure" };
+    let sg0 = match specs.get(&format!("sig {}__new", lc.name)) { Some(s) => Some(s), None => specs.get(&format!("sig {}", lc.name)) };
+    let order = match sg0 { Some(sg) => positional_order(&sg, lc), None => vec![] };
+    POS_ORDER.with(|p| *p.borrow_mut() = order);
     em.comment(&format!("// @lifted {} `{}` from {}:{} captures [{}]{}", kind, lc.name, file, lc.line, lc.captures.join(", "), if lc.is_move { " (move)" } else { " (by reference)" }));
     // ---- constructor
     let ctor = format!("{}__new", lc.name);
@@ -697,7 +729,20 @@ fn emit_lifted(cx: &mut Ctx, specs: &mut Specs, em: &mut Emitter, gens: &[&syn::
             let names: Vec<String> = inner.split(',').map(|p| p.split(':').next().unwrap_or("").trim().to_string()).collect();
             let mut extra = vec![];
             for (i, c) in lc.captures.iter().enumerate() { let cn = if c == "self" { "this".to_string() } else { c.replace("self.", "self_") }; if !names.contains(&cn) { match lc.cap_types.get(i).cloned().flatten() { Some(t) => extra.push(format!("{}: {}", cn, t)), None => cx.err(format!("outside dialect: closure `{}` captures `{}` which its contract signature does not name and whose type is not known", lc.name, c)) } } }
-            if !extra.is_empty() { sg = format!("({}{}{})", inner, if inner.trim().is_empty() { "" } else { ", " }, extra.join(", ")); cx.fire("L1x"); }
+            if !extra.is_empty() {
+                // parameters in capture order (the order the construction site passes them in)
+                let mut parts: Vec<String> = vec![]; let mut depth = 0i32; let mut cur = String::new();
+                for ch in inner.chars() { match ch { '<' | '(' | '[' => { depth += 1; cur.push(ch); } '>' | ')' | ']' => { depth -= 1; cur.push(ch); } ',' if depth == 0 => { parts.push(cur.trim().to_string()); cur.clear(); } _ => cur.push(ch) } }
+                if !cur.trim().is_empty() { parts.push(cur.trim().to_string()); }
+                let mut ordered: Vec<String> = vec![];
+                for c in lc.captures.iter() {
+                    let cn = if c == "self" { "this".to_string() } else { c.replace("self.", "self_") };
+                    if let Some(p) = parts.iter().find(|p| p.split(':').next().unwrap_or("").trim() == cn) { ordered.push(p.clone()); }
+                    else if let Some(p) = extra.iter().find(|p| p.split(':').next().unwrap_or("").trim() == cn) { ordered.push(p.clone()); }
+                }
+                for p in &parts { if !ordered.contains(p) { ordered.push(p.clone()); } }
+                sg = format!("({})", ordered.join(", ")); cx.fire("L1x");
+            }
             em.raw(&format!("pub fn {}{}{} -> (r: {}){}", ctor, gtxt_all, sg, ret_obj, wtxt_all))
         }
         None if any_typed => {
@@ -717,6 +762,18 @@ fn emit_lifted(cx: &mut Ctx, specs: &mut Specs, em: &mut Emitter, gens: &[&syn::
     let Some(sig) = specs.get(&format!("sig {}", lc.name)).map(|t| positional(t, lc)) else { return vec![]; };
     let mut block = lc.body.clone();
     rewrite::inline_tail_async(&mut block, cx);
+    let fnmut;
+    // L1m: a capture the closure mutates in place (FnMut) is a `&mut` parameter of the lifted function; `&mut cap` in the body is
+    // then a reborrow `&mut *cap`
+    {
+        let by_mut: Vec<String> = lc.captures.iter().filter(|c| { let c = c.as_str(); sig.contains(&format!("{}: &mut ", c)) }).cloned().collect();
+        fnmut = !by_mut.is_empty();
+        if fnmut {
+            let named: Vec<String> = lc.captures.iter().filter(|c| sig.contains(&format!("{}: ", c))).cloned().collect();
+            let all: Vec<String> = lc.captures.iter().filter(|c| by_mut.contains(c) || !named.contains(c)).cloned().collect();
+            rewrite::reborrow_mut_captures(&mut block, &all); cx.fire("L1m");
+        }
+    }
     let mut binders = BTreeSet::new();
     for p in &lc.inputs { rewrite::collect_binders_pat(p, &mut binders); }
     for c in &lc.captures { binders.insert(c.clone()); }
@@ -748,6 +805,8 @@ fn emit_lifted(cx: &mut Ctx, specs: &mut Specs, em: &mut Emitter, gens: &[&syn::
         let names: Vec<String> = names.iter().map(|n| n.split(':').next().unwrap_or("").trim().trim_start_matches("mut ").to_string()).collect();
         for (i, c) in lc.captures.iter().enumerate() { if c != "self" && !names.contains(c) {
             let ty = match lc.cap_types.get(i).cloned().flatten() { Some(t) => t, None => { extra_gen.push(format!("HxCap{}", i)); format!("HxCap{}", i) } };
+            // a closure whose contracted captures are `&mut` is an FnMut: what else it captures is its own mutable state too
+            let ty = if fnmut { format!("&mut {}", ty) } else { ty };
             params = format!("{}: {}{}{}", c, ty, if params.trim().is_empty() { "" } else { ", " }, params); cx.fire("L1x");
         } }
     }
